@@ -351,11 +351,70 @@ def trace_through_ref(fn, o, depth=6):
     return None
 
 
+INDEX_SOURCES = re.compile(
+    r"(Peekable<I> as core::iter::traits::iterator::Iterator>::next|Peekable::<I>::(peek|next_if|next_if_eq)|"
+    r"CharIndices<'a> as core::iter::traits::iterator::Iterator>::next|"
+    r"core::str::<impl str>::(len|find|rfind)|alloc::string::String::len|sway_types::span::Span::(start|end))$")
+
+
+def width_add_guard(F, s):
+    """`offset + width` on usize where width is char::len_utf8() or a constant <= 8 and offset is an index into a string
+    (yielded by a char-index iterator / len / find / a Span bound) cannot overflow: offsets are <= isize::MAX."""
+    fn, t = s["fn"], s["t"]
+    if not s["label"].startswith("assert:Overflow(Add)"):
+        return None
+    cond = t["o"][0]
+    for st in fn.bbs[s["bb"]]["s"]:
+        r = st["r"]
+        if r["k"] == "bin" and st["d"]["l"] == cond.get("l") and r["ty"] == "usize":
+            for x, y in ((r["o"][0], r["o"][1]), (r["o"][1], r["o"][0])):
+                small = False
+                if "c" in y:
+                    m = re.match(r"^(?:const )?(\d+)_usize$", y["c"].strip())
+                    small = bool(m and int(m.group(1)) <= 8)
+                else:
+                    v = trace_value(fn, y)
+                    small = bool(v and v[0] == "call" and (v[1].get("fp", "")).endswith("<impl char>::len_utf8"))
+                if not small or "l" not in x:
+                    continue
+                sl = _slice(fn, x)
+                srcs = [l for l in sl["leaves"] if l[0] in ("call", "callfield")]
+                if srcs and all(INDEX_SOURCES.search(l[1]) for l in srcs) and \
+                        not any(l[0] in ("param", "capture", "unknown") for l in sl["leaves"]) and \
+                        all(op.startswith("Add") for op in sl["ops"]):
+                    return "string offset (<= isize::MAX) + char width / small constant cannot overflow usize"
+    return None
+
+
+def _slice(fn, o):
+    from . import slices
+    return slices.backward_slice(fn, o)
+
+
+def digit_radix_guard(F, s):
+    """char::to_digit / is_digit / from_digit panic only for radix > 36."""
+    if s["label"] != "char_digit":
+        return None
+    fn, t = s["fn"], s["t"]
+    args = t.get("a", [])
+    if len(args) >= 2:
+        r = args[1]
+        v = r if "c" in r else None
+        if v is None:
+            tv = trace_value(fn, r)
+            v = tv[1] if tv and tv[0] == "const" else None
+        if v:
+            m = re.match(r"^(?:const )?(\d+)_u32$", v["c"].strip())
+            if m and int(m.group(1)) <= 36:
+                return f"radix {m.group(1)} <= 36"
+    return None
+
+
 _discharge0 = discharge
 
 
 def discharge(F, s):  # noqa: F811
-    return _discharge0(F, s) or prefix_guard(F, s)
+    return _discharge0(F, s) or prefix_guard(F, s) or width_add_guard(F, s) or digit_radix_guard(F, s)
 
 
 TRANSPARENT = re.compile(
